@@ -206,6 +206,11 @@ func (epc *EpochsContext) Clone() *EpochsContext {
 }
 
 func (epc *EpochsContext) RotateEpochs(state BeaconState) error {
+	// The state may be wrapped (e.g. by an upgradeable state that swaps the fork-specific state on upgrades):
+	// the fork-specific interfaces checked below are those of the inner state.
+	if w, ok := state.(interface{ UnwrapBeaconState() BeaconState }); ok {
+		state = w.UnwrapBeaconState()
+	}
 	epc.PreviousEpoch = epc.CurrentEpoch
 	epc.CurrentEpoch = epc.NextEpoch
 	nextEpoch := epc.CurrentEpoch.Epoch + 1
